@@ -8,47 +8,75 @@ Section BytesProofs.
   Variable entry : Type.
   Variable enc : entry -> list Z.
   Variable dec : list Z -> option (entry * list Z).
-  (* the codec contract (proved for the concrete wire codec in C14): self-delimiting round trip, every
-     encoding is non-empty, and a proper prefix of an encoding does not decode (prefix-freeness) *)
-  Hypothesis dec_enc : forall e rest, dec (enc e ++ rest) = Some (e, rest).
-  Hypothesis enc_nonempty : forall e, enc e <> [].
-  Hypothesis dec_prefix : forall e p q, enc e = p ++ q -> q <> [] -> dec p = None.
+  (* the entries the log is used with (for the real WAL: GMessage values within the limits of the Go types) *)
+  Variable good : entry -> Prop.
+  (* the codec contract -- PROVED for the cbor-gen codec of the real entry type in Enc/CodecProofs.v and instantiated
+     below (Properties/C11.v, c11_wal_entry_torn_tail etc.): self-delimiting round trip, every encoding is non-empty, and a proper
+     prefix of an encoding does not decode *)
+  Hypothesis dec_enc : forall e rest, good e -> dec (enc e ++ rest) = Some (e, rest).
+  Hypothesis enc_nonempty : forall e, good e -> enc e <> [].
+  Hypothesis dec_prefix : forall e p q, good e -> enc e = p ++ q -> q <> [] -> dec p = None.
 
-  Lemma parse_complete : forall es fuel tail, (length es < fuel)%nat -> dec tail = None ->
+  Lemma parse_complete : forall es fuel tail, Forall good es -> (length es < fuel)%nat -> dec tail = None ->
     parse entry dec fuel (concat (map enc es) ++ tail) = es.
   Proof.
-    induction es as [|e es IH]; intros fuel tail Hf Ht; destruct fuel as [|f]; try (cbn in Hf; lia).
+    induction es as [|e es IH]; intros fuel tail Hg Hf Ht; destruct fuel as [|f]; try (cbn in Hf; lia).
     - cbn. rewrite Ht. reflexivity.
-    - cbn [map concat]. rewrite <- app_assoc. cbn [parse]. rewrite dec_enc. f_equal. apply IH; auto. cbn in Hf. lia.
+    - inversion Hg as [|? ? Ge Ges]; subst. cbn [map concat]. rewrite <- app_assoc. cbn [parse]. rewrite dec_enc by exact Ge.
+      f_equal. apply IH; auto. cbn in Hf. lia.
   Qed.
 
-  Lemma length_concat_ge es : (length es <= length (concat (map enc es)))%nat.
+  Lemma length_concat_ge es : Forall good es -> (length es <= length (concat (map enc es)))%nat.
   Proof.
-    induction es as [|e es IH]; cbn; [lia|]. rewrite app_length.
+    induction 1 as [|e es Ge _ IH]; cbn; [lia|]. rewrite app_length.
     assert (1 <= length (enc e))%nat. { destruct (enc e) eqn:E; [exfalso; eapply enc_nonempty; eauto|cbn; lia]. } lia.
   Qed.
 
   (* a file holding the records es followed by a torn prefix of one more record reads back exactly es *)
+  Theorem torn_tail_read_good es e p q : Forall good es -> good e -> enc e = p ++ q -> q <> [] ->
+    read_file entry dec (concat (map enc es) ++ p) = es.
+  Proof.
+    intros Hg Ge E Q. unfold read_file. apply parse_complete; [exact Hg| |eapply dec_prefix; eauto].
+    rewrite app_length. pose proof (length_concat_ge es Hg). lia.
+  Qed.
+
+  Theorem clean_read_good es : dec [] = None -> Forall good es -> read_file entry dec (concat (map enc es)) = es.
+  Proof.
+    intros Hnil Hg. rewrite <- (app_nil_r (concat (map enc es))) at 1.
+    destruct es as [|e0 es'] eqn:Ees.
+    - unfold read_file. cbn. rewrite Hnil. reflexivity.
+    - assert (G0 : good e0) by (inversion Hg; assumption).
+      rewrite <- Ees in *. unfold read_file. rewrite app_nil_r.
+      rewrite <- (app_nil_r (concat (map enc es))). apply parse_complete; [exact Hg| |].
+      + rewrite app_nil_r. pose proof (length_concat_ge es Hg). lia.
+      + exact (dec_prefix e0 [] (enc e0) G0 eq_refl (enc_nonempty e0 G0)).
+  Qed.
+End BytesProofs.
+
+Section BytesProofsAll.
+  Variable entry : Type.
+  Variable enc : entry -> list Z.
+  Variable dec : list Z -> option (entry * list Z).
+  Hypothesis dec_enc : forall e rest, dec (enc e ++ rest) = Some (e, rest).
+  Hypothesis enc_nonempty : forall e, enc e <> [].
+  Hypothesis dec_prefix : forall e p q, enc e = p ++ q -> q <> [] -> dec p = None.
+  Let all_good es : Forall (fun _ : entry => True) es. Proof. apply Forall_forall. intros; exact I. Qed.
   Theorem torn_tail_read es e p q : enc e = p ++ q -> q <> [] ->
     read_file entry dec (concat (map enc es) ++ p) = es.
   Proof.
-    intros E Q. unfold read_file. apply parse_complete; [|eapply dec_prefix; eauto].
-    rewrite app_length. pose proof (length_concat_ge es). lia.
+    intros E Q. apply (torn_tail_read_good entry enc dec (fun _ => True)) with (e := e) (q := q); auto.
+    intros; eapply dec_prefix; eauto.
   Qed.
-
   Theorem clean_read es : read_file entry dec (concat (map enc es)) = es.
   Proof.
-    rewrite <- (app_nil_r (concat (map enc es))) at 1.
     destruct es as [|e0 es'] eqn:Ees.
     - unfold read_file. cbn. destruct (dec []) as [[e r]|] eqn:D; auto.
-      (* dec [] = None follows from prefix-freeness of any encoding *)
       rewrite (dec_prefix e [] (enc e) eq_refl (enc_nonempty e)) in D. discriminate.
-    - rewrite <- Ees. unfold read_file. rewrite app_nil_r.
-      rewrite <- (app_nil_r (concat (map enc es))). apply parse_complete.
-      + rewrite app_nil_r. pose proof (length_concat_ge es). lia.
+    - rewrite <- Ees. apply (clean_read_good entry enc dec (fun _ => True)); auto.
+      + intros; eapply dec_prefix; eauto.
       + exact (dec_prefix e0 [] (enc e0) eq_refl (enc_nonempty e0)).
   Qed.
-End BytesProofs.
+End BytesProofsAll.
 
 (* ---------- record layer ---------- *)
 Lemma name_eqb_eq a b : name_eqb a b = true <-> a = b.
